@@ -107,6 +107,8 @@ def parse_parameter(
             enum_name = f"{NameSanitizer.sanitize_class_name(param_name)}Item"
 
         if enum_name:
+            # The class is emitted under its sanitised name (get_record1... -> GetRecord1...): refer to it by that name
+            enum_name = NameSanitizer.sanitize_class_name(enum_name)
             items_schema = IRSchema(
                 name=enum_name,
                 type="string",
